@@ -121,7 +121,8 @@ def check(run, M, tier):
             for k, n in p.events:
                 if k in ("true", "false"):
                     try:
-                        t_ = VN(M, f, real=SCALARS)._as_term(VN(M, f, real=SCALARS).ev(n.test, State()))
+                        from ..model import expand_temps
+                        t_ = VN(M, f, real=SCALARS)._as_term(VN(M, f, real=SCALARS).ev(expand_temps(f.node, n.test), State()))
                     except Unrecognised:
                         continue
                     dterms.append(T.show(t_ if k == "true" else negate(t_), 200))
@@ -198,7 +199,12 @@ def check(run, M, tier):
                 return None
             return None
         got = {}
-        VN(M, f, call_hook=h, loop_hook=iter_once_loop).run(stmts, State())
+        from ..vn import unroll_loop
+
+        def hook2(vn_, s_, st_):
+            r_ = unroll_loop(vn_, s_, st_)   # a loop over a literal tuple of (buffer, area) pairs is the statements it abbreviates
+            return r_ if r_ is not None else iter_once_loop(vn_, s_, st_)
+        VN(M, f, call_hook=h, loop_hook=hook2).run(stmts, State())
         return got
     try:
         cs = calls_of([s_ for s_ in f.body if not isinstance(s_, ast.Return)])
